@@ -394,11 +394,16 @@ def _label_alignment_on_duplicate_labels(prog, coll, val, expected):
         dup = (not expected.index.is_unique) or (isinstance(val, (pd.Series, pd.DataFrame)) and not val.index.is_unique)
         if not dup:
             return False
-        feats = set(P.label_features(prog))
-        if feats & {"merge", "sort_values", "set_index", "groupby", "gb", "gbf", "drop_duplicates", "shuffle"}:
-            return False
-        names = {type(e).__name__ for e in coll.expr.lower_completely().walk()}
-        return any(("Shuffle" in n or "PartitioningIndex" in n) for n in names)
+        for e in coll.expr.walk():
+            if "Align" not in type(e).__name__:
+                continue
+            for dep in e.dependencies():
+                try:
+                    if getattr(dep, "ndim", 0) >= 1 and not dep.known_divisions:
+                        return True         # an alignment node over an operand with unknown divisions: aligned by label
+                except Exception:  # noqa: BLE001
+                    continue
+        return False
     except Exception:  # noqa: BLE001
         return False
 
